@@ -403,7 +403,7 @@ def model_other(ts, cfg, kind, impl, prev=None):
         (impl[0] == m[0] and impl[1] == m[1])
 
 
-def c04_cases(tier, rnd, graph_gens, n_quick=700, n_thorough=9000):
+def c04_cases(tier, rnd, graph_gens, n_quick=700, n_thorough=6000):
     """cases {"runs": [(ts, cfg, "decor")]}: the graphs of C04's generators x random accepted configurations
     (pipeprops.random_cfg: 2^6 switches, report modes, caps, target classes -- also classes without instances --,
     empty-shape removal on/off, namespaces) x OR on/off x examples_mode {None, shape, cons, all} x
